@@ -22,8 +22,8 @@ import (
 	"math/big"
 	"math/rand"
 	"os"
-	"runtime/pprof"
 	"runtime/debug"
+	"runtime/pprof"
 	"sort"
 	"strings"
 	"time"
